@@ -423,6 +423,12 @@ def run(ctx):
     check_pmtree(ctx, fb)
     check_nonempty_batches(ctx, fb)
     check_removal_mark(ctx, fb)
+    # R08-8 (shared with C06 R06-11): a batch reaches the store through put_batch: every record of the batch (default-valued ones included) is inserted
+    from . import c06 as _c06s
+    _subs = type(ctx)(ctx.pid, ctx.tier)
+    _c06s.check_store_adapter(_subs, ctx.fb("default"))
+    for r in _subs.results:
+        (ctx.ok if r.status == "ok" else ctx.fail)("R08-8", r.instance, r.reason, r.loc)
     # R08-4 (shared with C06): the range write behind every batch recomputes all ancestors of the written range
     from . import c06
     from ..main import Ctx as _Ctx
